@@ -51,7 +51,7 @@ def run_chunk(args):
             last = cur if cur is not None else ids[0]
             if last not in res:
                 res[last] = {"open_err": None, "out": [], "crash": None}
-            res[last]["crash"] = "rc=%d\n" % rc + "\n".join(res[last]["out"][-60:])
+            res[last]["crash"] = "rc=%d\n" % rc + "\n".join(res[last]["out"][:3] + res[last]["out"][-60:])
             k = ids.index(last) if last in ids else 0
             todo = todo[k + 1:]
         else:
@@ -297,6 +297,12 @@ def crash_key(op, text, args=()):
         return "C10/hang/%s" % op
     if op == "open_limit" and args and abs(int(args[0])) >= (1 << 60):
         return "C10/open_limit/size-overflow"
+    first = re.search(r"FIRST R (-?\d+) E (-?\d+)", text)
+    if op in ("alter_linterp", "alter_entry", "alter_spec") and first and first.group(2) == "0" and \
+            ("double-free" in text or "_GD_ReadLinterpFile" in text or "heap-use-after-free" in text):
+        return "C10/alter_linterp/stale-lut-after-table-change"
+    if op in ("alter_carray", "alter_sarray") and args and int(args[-1]) >= (1 << 60):
+        return "C10/%s/size-overflow" % op
     if op in ("rename", "move") and args and (int(args[2]) & 0x10):
         return "C10/rename/flag-0x10-aliases-GD_REN_META"
     for fn, key in (("gd_get_carray_slice", "C10/slice-wrap/gd_get_carray_slice"), ("_GD_PutCarraySlice", "C10/slice-wrap/gd_put_carray_slice"),
